@@ -156,9 +156,11 @@ class Ctx:
     def prove(self, name, prop, replay=None, info=None):
         """Ask the solver whether `prop` can fail on this path."""
         p = _zb(prop)
-        reach = self.check()
+        t0 = time.time()
+        reach = "deferred"  # decided once per path by explore(): pc only grows, so the final pc being sat covers all
         r = self.check(z3.Not(p))
-        rec = {"name": name, "result": str(r), "reach": str(reach), "path": len(self.results), "info": info}
+        rec = {"name": name, "result": str(r), "reach": str(reach), "path": len(self.results), "info": info,
+               "secs": round(time.time() - t0, 2)}
         if r == z3.sat:
             rec["model"] = self.model_values()
             rec["replay"] = replay
@@ -230,6 +232,11 @@ def explore(fn, max_paths=2000, timeout_ms=20000, pin=None, deadline=None):
             out = fn(c)
             paths.append(c)
             c.ret = out
+            if pin is None and any(not r.get("canary") for r in c.results):
+                reach = str(c.check())
+                for r in c.results:
+                    if r.get("reach") == "deferred":
+                        r["reach"] = "sat" if r["result"] == "sat" else reach
         except Abort:
             stats["aborted"] += 1
         stack.extend(c.pending)
@@ -593,15 +600,23 @@ class SNum:
         return SNum(TAN(_real(self.e)))
 
     def exp(self):
-        x = _real(self.e)
+        """exp as a fresh positive real per distinct argument, with the instances of
+        monotonicity / injectivity / exp(0)=1 that relate it to every earlier argument."""
+        x = z3.simplify(_real(self.e))
         c = Ctx.cur
-        c.pc += [EXP(x) > 0, (x <= 0) == (EXP(x) <= 1), (x == 0) == (EXP(x) == 1)]
         seen = c.__dict__.setdefault("_exp_args", [])
-        for y in seen:
-            c.pc.append(z3.Implies(x <= y, EXP(x) <= EXP(y)))
-            c.pc.append(z3.Implies(y <= x, EXP(y) <= EXP(x)))
-        seen.append(x)
-        return SNum(EXP(x))
+        for xa, ya in seen:
+            if xa.eq(x):
+                seen.append((x, ya))
+                return SNum(ya)
+        y = c.new_real("exp")
+        c.defs[str(y)] = ("exp", x)
+        c.pc += [y > 0, (x <= 0) == (y <= 1), (x == 0) == (y == 1)]
+        for xa, ya in seen:
+            c.pc.append((x <= xa) == (y <= ya))
+            c.pc.append((x == xa) == (y == ya))
+        seen.append((x, y))
+        return SNum(y)
 
     def __repr__(self):
         return f"S({self.e})"
